@@ -13,6 +13,7 @@ import (
 	"go/token"
 	"go/types"
 	"sort"
+	"strconv"
 	"strings"
 
 	"golang.org/x/tools/go/packages"
@@ -616,10 +617,116 @@ func (in *Interp) cond(st *State, e ast.Expr) string {
 			}
 		}
 	}
+	// membership in a constant set written as a map (`var set = map[T]bool{A: true, B: true}`, read only):
+	// set[x] is x==A || x==B
+	if ix, ok := e.(*ast.IndexExpr); ok {
+		if keys, ok := in.w.constBoolSet(in.info, ix.X); ok {
+			in.eval(st, ix.X)
+			l := in.operand(st, ix.Index)
+			c := "false"
+			for _, k := range keys {
+				c = orCond(c, eqCond(l, strconv.FormatInt(k, 10)))
+			}
+			return c
+		}
+	}
 	if v, ok := in.eval(st, e).(BoolV); ok {
 		return v.Cond
 	}
 	return in.render(st, e)
+}
+
+// constBoolSet: e names a package-level map[integer]bool whose initialiser is a literal with constant keys,
+// that no statement of the module assigns to, deletes from, takes the address of or passes anywhere (every
+// use is an index read). It returns the keys mapped to true.
+func (w *World) constBoolSet(info *types.Info, e ast.Expr) ([]int64, bool) {
+	var id *ast.Ident
+	switch x := unparen(e).(type) {
+	case *ast.Ident:
+		id = x
+	case *ast.SelectorExpr:
+		id = x.Sel
+	default:
+		return nil, false
+	}
+	v, ok := info.Uses[id].(*types.Var)
+	if !ok || v.Pkg() == nil || v.Parent() != v.Pkg().Scope() {
+		return nil, false
+	}
+	mt, ok := v.Type().Underlying().(*types.Map)
+	if !ok || !isIntType(mt.Key()) {
+		return nil, false
+	}
+	if b, ok := mt.Elem().Underlying().(*types.Basic); !ok || b.Kind() != types.Bool {
+		return nil, false
+	}
+	init, pkg := w.globalInit(v)
+	cl, ok := unparenOrNil(init).(*ast.CompositeLit)
+	if !ok || pkg == nil {
+		return nil, false
+	}
+	var keys []int64
+	for _, el := range cl.Elts {
+		kv, ok := el.(*ast.KeyValueExpr)
+		if !ok {
+			return nil, false
+		}
+		k, isC := constIntOf(pkg.TypesInfo, kv.Key)
+		tv, hasV := pkg.TypesInfo.Types[kv.Value]
+		if !isC || !hasV || tv.Value == nil || tv.Value.Kind() != constant.Bool {
+			return nil, false
+		}
+		if constant.BoolVal(tv.Value) {
+			keys = append(keys, k)
+		}
+	}
+	// every mention of the variable in the module is the operand of an index read
+	for _, p := range w.Mod {
+		for _, f := range p.Syntax {
+			okUses := map[*ast.Ident]bool{}
+			bad := false
+			ast.Inspect(f, func(n ast.Node) bool {
+				switch x := n.(type) {
+				case *ast.AssignStmt:
+					for _, l := range x.Lhs {
+						if ix, ok := unparen(l).(*ast.IndexExpr); ok && w.refersTo(p, ix.X, v) {
+							bad = true
+						}
+					}
+				case *ast.IncDecStmt:
+					if ix, ok := unparen(x.X).(*ast.IndexExpr); ok && w.refersTo(p, ix.X, v) {
+						bad = true
+					}
+				case *ast.IndexExpr:
+					switch y := unparen(x.X).(type) {
+					case *ast.Ident:
+						okUses[y] = true
+					case *ast.SelectorExpr:
+						okUses[y.Sel] = true
+					}
+				}
+				return true
+			})
+			ast.Inspect(f, func(n ast.Node) bool {
+				if i, ok := n.(*ast.Ident); ok && p.TypesInfo.Uses[i] == v && !okUses[i] {
+					bad = true
+				}
+				return true
+			})
+			if bad {
+				return nil, false
+			}
+		}
+	}
+	sort.Slice(keys, func(i, j int) bool { return keys[i] < keys[j] })
+	return keys, true
+}
+
+func unparenOrNil(e ast.Expr) ast.Expr {
+	if e == nil {
+		return nil
+	}
+	return unparen(e)
 }
 
 func (in *Interp) operand(st *State, e ast.Expr) string {
@@ -914,6 +1021,21 @@ func (in *Interp) eval(st *State, e ast.Expr) Val {
 				in.addSite(&Site{Kind: "index", Buf: b.Path, Origin: "list", Pos: x.Pos(), Text: in.render(st, x), Fn: in.fi.Key, Guard: in.guard(), Expr: x,
 					Needs: []Need{{A: Const(c + 1), B: b.Len, What: fmt.Sprintf("element %d of the list exists", c)}}, Facts: facts})
 			}
+			// x[len(x)-1] right after x = append(x, v): the element just stored
+			if n := len(b.Elems); n > 0 {
+				if _, spread := b.Elems[n-1].(SpreadV); !spread {
+					if be, ok := unparen(x.Index).(*ast.BinaryExpr); ok && be.Op == token.SUB {
+						if c, isC := constIntOf(in.info, be.Y); isC && c == 1 {
+							if lc, ok := unparen(be.X).(*ast.CallExpr); ok && len(lc.Args) == 1 {
+								if id, ok := lc.Fun.(*ast.Ident); ok && id.Name == "len" && in.info.Uses[id] == types.Universe.Lookup("len") &&
+									types.ExprString(lc.Args[0]) == types.ExprString(x.X) {
+									return b.Elems[n-1]
+								}
+							}
+						}
+					}
+				}
+			}
 			if b.Path != "" {
 				t := in.info.TypeOf(e)
 				return in.readPath(st, b.Path+"[*]", t)
@@ -1047,6 +1169,9 @@ func (in *Interp) binary(st *State, x *ast.BinaryExpr) Val {
 		in.eval(st, x.X)
 		in.eval(st, x.Y)
 		return UnkV{in.render(st, x)}
+	}
+	if v, ok := in.byteJoinRead(st, x); ok {
+		return v
 	}
 	a, b := in.evalInt(st, x.X), in.evalInt(st, x.Y)
 	var r *Term
@@ -1337,4 +1462,123 @@ func (in *Interp) underShortCircuit(st *State, left ast.Expr, truth bool, f func
 		st.isNil = st.isNil[:ni]
 	}
 	return out
+}
+
+// byteLanes: e is T(X[i])<<s | T(X[j])<<t | … — an integer assembled from single bytes. It returns the
+// index expressions by shift amount (in bits); nil when e has another shape.
+func (in *Interp) byteLanes(e ast.Expr) map[int64]*ast.IndexExpr {
+	lanes := map[int64]*ast.IndexExpr{}
+	var walk func(e ast.Expr) bool
+	walk = func(e ast.Expr) bool {
+		e = unparen(e)
+		if be, ok := e.(*ast.BinaryExpr); ok && (be.Op == token.OR || be.Op == token.ADD) {
+			return walk(be.X) && walk(be.Y)
+		}
+		shift := int64(0)
+		if be, ok := e.(*ast.BinaryExpr); ok && be.Op == token.SHL {
+			c, isC := constIntOf(in.info, be.Y)
+			if !isC || c <= 0 || c%8 != 0 || c > 56 {
+				return false
+			}
+			shift, e = c, unparen(be.X)
+		}
+		for {
+			c, ok := e.(*ast.CallExpr)
+			if !ok || len(c.Args) != 1 {
+				break
+			}
+			tv, ok := in.info.Types[c.Fun]
+			if !ok || !tv.IsType() || !isIntType(tv.Type) {
+				return false
+			}
+			// the conversion must be wide enough to hold the shifted byte, or the lane is lost
+			if sz := sizeofBasic(tv.Type); sz == 0 || int64(sz*8) < shift+8 {
+				return false
+			}
+			e = unparen(c.Args[0])
+		}
+		ix, ok := e.(*ast.IndexExpr)
+		if !ok {
+			return false
+		}
+		if _, dup := lanes[shift]; dup {
+			return false
+		}
+		lanes[shift] = ix
+		return true
+	}
+	if !walk(e) || len(lanes) < 2 {
+		return nil
+	}
+	switch len(lanes) {
+	case 2, 4, 8:
+	default:
+		return nil
+	}
+	for s := int64(0); s < int64(len(lanes))*8; s += 8 {
+		if lanes[s] == nil {
+			return nil
+		}
+	}
+	return lanes
+}
+
+func sizeofBasic(t types.Type) int {
+	b, ok := t.Underlying().(*types.Basic)
+	if !ok {
+		return 0
+	}
+	switch b.Kind() {
+	case types.Int8, types.Uint8:
+		return 1
+	case types.Int16, types.Uint16:
+		return 2
+	case types.Int32, types.Uint32:
+		return 4
+	case types.Int64, types.Uint64, types.Int, types.Uint, types.Uintptr:
+		return 8
+	}
+	return 0
+}
+
+// byteJoinRead models an integer assembled from consecutive bytes of the input as one read of that width
+// and byte order (what binary.BigEndian.UintN does), so that rewriting one form as the other changes nothing.
+func (in *Interp) byteJoinRead(st *State, x *ast.BinaryExpr) (Val, bool) {
+	lanes := in.byteLanes(x)
+	if lanes == nil {
+		return nil, false
+	}
+	n := int64(len(lanes))
+	offs := make([]*Term, n) // by significance: offs[0] is the least significant byte
+	for k := int64(0); k < n; k++ {
+		in.pendingRead = nil
+		in.eval(st, lanes[k*8])
+		if in.pendingRead == nil || in.pendingRead.Kind != "byte" {
+			in.pendingRead = nil
+			return nil, false
+		}
+		offs[k] = in.pendingRead.Off
+	}
+	in.pendingRead = nil
+	order := ""
+	be, le := true, true
+	for k := int64(1); k < n; k++ {
+		if !offs[k].Equal(offs[0].AddC(-k)) {
+			be = false
+		}
+		if !offs[k].Equal(offs[0].AddC(k)) {
+			le = false
+		}
+	}
+	var first *Term
+	switch {
+	case be:
+		order, first = "be", offs[n-1]
+	case le:
+		order, first = "le", offs[0]
+	default:
+		return nil, false
+	}
+	in.pendingRead = &Rec{Off: first, W: Const(n), Kind: "int", Order: order, Pos: x.Pos()}
+	return IntV{setAtomMax(FromAtom(&Atom{Kind: "val", Path: fmt.Sprintf("P[%s:%d]", first, n)}), int64(1)<<uint(8*n)-1)}, true
 }
